@@ -80,7 +80,9 @@ pub fn binomial_inversion(n: u64, p: f64) -> u64 {
     let mut r = (1. - p).powi(n as i32);
     let mut u = alea::f64();
     let mut x: u64 = 0;
-    while u > r as f64 {
+    // `x < n`: rounding can leave `u` above the total summed mass (e.g. u = 1 - 2^-53), after
+    // which `r` reaches 0 and the loop would never end
+    while u > r as f64 && x < n {
         u -= r;
         x += 1;
         r *= a / (x as f64) - s;
